@@ -111,6 +111,12 @@ Proof.
   cbv zeta. rewrite Hm, Hp. reflexivity.
 Qed.
 
+(* the model's triplet decoding (bits.Reverse8 table) is the specification's (bit reversal written out) *)
+Lemma land255_lt x : N.land x 255 < 256.
+Proof. change 255 with (N.ones 8). rewrite N.land_ones. apply N.mod_lt. discriminate. Qed.
+Lemma triplet_dec_spec i : triplet_dec i = triplet_of i.
+Proof. unfold triplet_dec, triplet_of. rewrite !nth_byte_at. rewrite !rev8_is_spec by apply land255_lt. reflexivity. Qed.
+
 Lemma benign_step mag0 pn0 u t b : selected mag0 pn0 b -> benign mag0 pn0 u = true ->
   parse_unit (snd u) (fst u) t b = Ok b.
 Proof.
@@ -140,15 +146,7 @@ Proof.
         rewrite L1, D in Hb. cbn [orb] in Hb. unfold parse_2829.
         destruct (negb (dc =? 0) && negb (dc =? 4)); [reflexivity|]. cbn [orb] in Hb.
         destruct (Nat.ltb (length (tl p)) 3); [reflexivity|]. cbn [orb] in Hb.
-        rewrite !nth_byte_at.
-        assert (Hlow : N.land (N.lor (N.lor (N.shiftl (nth 2 (tl p) 0) 16) (N.shiftl (nth 1 (tl p) 0) 8)) (nth 0 (tl p) 0)) 15
-                       = N.land (nth 0 (tl p) 0) 15).
-        { apply N.bits_inj. intros k. rewrite !N.land_spec, !N.lor_spec.
-          destruct (N.ltb_spec k 4) as [Hk4|Hk4].
-          - rewrite (N.shiftl_spec_low _ 16 k) by lia. rewrite (N.shiftl_spec_low _ 8 k) by lia. reflexivity.
-          - replace (N.testbit 15 k) with false; [rewrite !andb_false_r; reflexivity|].
-            symmetry. change 15 with (N.ones 4). apply N.ones_spec_high. lia. }
-        rewrite Hlow. rewrite Hb. reflexivity. }
+        rewrite triplet_dec_spec. destruct (triplet_of (tl p)) as [tr|]; [|reflexivity]. rewrite Hb. reflexivity. }
       destruct (N.eqb_spec pkt 28) as [-> | N28].
       * specialize (Inert eq_refl). destruct (pb_recv b), (mag =? mag0); cbn [andb N.eqb Pos.eqb]; try reflexivity; apply Inert; reflexivity.
       * rewrite !andb_false_r. destruct (N.eqb_spec pkt 29) as [-> | N29].
